@@ -348,7 +348,7 @@ def workflows(ctx, env, g1):
     pairs = rnd.sample(pairs, min(n, len(pairs)))
     dom = ctx.domain(
         "two-node workflow Up(out: S) -> Down(x: T)",
-        bound=f"{len(pairs)} statically accepted depth<=1 pairs with S != T sampled with seed {ctx.seed}; one value of S per pair (outside the known finding classes and the arity exemption); debug worker",
+        bound=f"up to {len(pairs)} statically accepted depth<=1 pairs with S != T sampled with seed {ctx.seed} (pairs without a usable value are skipped); one value of S per pair that is outside the reported finding classes and the arity exemption and that both field converters accept; debug worker, fresh cache root and distinct task/workflow names per case",
         rule="one case per (S, T, value); non-trivial always (both task bodies run)",
         exhaustive=False,
     )
